@@ -15,7 +15,7 @@ for id in $ids; do
     out=$(./check $prop --no-evidence 2>&1); rc=$?
     git -C /repo checkout -- .
   else
-    wt=/tmp/gnpysim-seeded-wt; git -C /repo worktree remove --force $wt >/dev/null 2>&1
+    wt=/tmp/gnpysim-seeded-wt-$$; git -C /repo worktree remove --force $wt >/dev/null 2>&1
     git -C /repo worktree add -q --detach $wt HEAD
     git -C $wt apply $PWD/seeded/$id/patch.diff || { echo "$id: patch does not apply"; git -C /repo worktree remove --force $wt; continue; }
     out=$(GNPY_SRC=$wt ./check $prop --no-evidence 2>&1); rc=$?
